@@ -1169,6 +1169,14 @@ LEVEL_TEXT += (" End to end: after any history of writers, if the reference stor
                "true afterwards (readLine_delim_total first half, failed_read_ends: repairs 95952ce, 4bfeeba), the outcome of copy/move to a "
                "destination that accepts no byte (full_device: repair 78aac25), and everything about directories (driver constants xdirlines, "
                "xdirrlc, xdirend, xdircopy: repairs 9eba4eb, 95952ce, 4bfeeba, bbbf8e1).")
+LEVEL_TEXT += (" Extension round: the loop `while (f.readLine(s)) out << s;` driven by the bool result of readLine(String&) "
+               "(readWhile, terminating on every content): the strings delivered with true followed by the string the final false call "
+               "leaves are exactly the lines of the NUL-free remaining text, the true strings are exactly the LF-terminated pieces and the "
+               "left-over the unterminated tail, stream at its end (readLine_while_spec, readLine_while_terminated, readLine_while_of_file; "
+               "K op xrlw, python reference). open(name, mode) / File(name, mode) / TextFile(name, mode) record the name whether or not the "
+               "open succeeded (Obj.openAt; failed_open_keeps_path); after a failed READ-open on a missing path the object is exactly a "
+               "path-only object of the new path and a lazy write creates and fills that file, every other path untouched "
+               "(failed_open_is_fresh, failed_open_then_write; K op xfo).")
 LEVEL_NOTE = ("Hypotheses (modelled, exercised by K, not verified): stdio and POSIX behave as listed under `assumptions` (fopen modes, fwrite "
               "delivery by fflush/fclose, fgets/fread/feof/ferror, stat size, rename/EXDEV/unlink). The model has no stdio buffer: the theorems about "
               "objects still open for writing (obj_reads open branch, obj_write_query_close `while still open`, obj_copy_move_preserve, "
